@@ -302,7 +302,7 @@ impl FileSpec {
         let compressed_files =
             self.try_list_of_files(&InfixFilter::Equls(infix.to_string()), Some("gz"))?;
 
-        let mut restart_siblings = uncompressed_files
+        let restart_siblings = uncompressed_files
             .into_iter()
             .chain(compressed_files)
             .filter(|pb| {
@@ -336,21 +336,21 @@ impl FileSpec {
         // if collision would occur (new_path or compressed new_path exists already),
         // find highest restart and add 1, else continue without restart
         if new_path.exists() || new_path_with_gz.exists() || !restart_siblings.is_empty() {
-            let next_number = if restart_siblings.is_empty() {
-                0
-            } else {
-                restart_siblings.sort_unstable();
-                let new_path = restart_siblings.pop().unwrap(/*ok*/);
-                let file_stem_string = if self.o_suffix.is_some() {
-                    new_path
-                    .file_stem().unwrap(/*ok*/)
-                    .to_string_lossy().to_string()
-                } else {
-                    new_path.to_string_lossy().to_string()
-                };
-                let index = file_stem_string.find(".restart-").unwrap(/*ok*/);
-                file_stem_string[(index + 9)..(index + 13)].parse::<usize>().unwrap(/*ok*/) + 1
-            };
+            // the highest restart number that is in use, plus one (numbers that do not fit are ignored:
+            // they cannot collide with a number that we produce)
+            let next_number = restart_siblings
+                .iter()
+                .filter_map(|path| {
+                    let name = path.file_name()?.to_string_lossy();
+                    let digits = &name[name.find(".restart-")? + 9..];
+                    let end = digits
+                        .find(|c: char| !c.is_ascii_digit())
+                        .unwrap_or(digits.len());
+                    digits[..end].parse::<u64>().ok()
+                })
+                .max()
+                .map_or(Some(0), |n| n.checked_add(1))
+                .ok_or_else(|| std::io::Error::other("restart numbers are exhausted"))?;
 
             Ok(infix.to_string().add(&format!(".restart-{next_number:04}")))
         } else {
